@@ -9,6 +9,8 @@ use crate::Entry;
 
 #[cfg(feature = "background-queue")]
 mod background;
+#[cfg(all(metrique_verif_loom, feature = "background-queue"))]
+mod verif_queue;
 mod immediate_flush;
 mod metrics;
 
@@ -16,6 +18,9 @@ mod metrics;
 pub use background::{BACKGROUND_QUEUE_METRICS, describe_sink_metrics};
 #[cfg(feature = "background-queue")]
 pub use background::{BackgroundQueue, BackgroundQueueBuilder, BackgroundQueueJoinHandle};
+#[cfg(all(metrique_verif, feature = "background-queue"))]
+#[doc(hidden)]
+pub use background::__verif_waker;
 pub use immediate_flush::{
     AnyFlushImmediately, FlushImmediately, FlushImmediatelyBuilder,
     describe_immediate_flush_metrics,
